@@ -55,6 +55,9 @@ Definition toupper_c (b : Z) : Z := if (97 <=? b) && (b <=? 122) then b - 32 els
 Definition tolower_c (b : Z) : Z := if (65 <=? b) && (b <=? 90) then b + 32 else b.
 
 (* ---------- impl (transcription) ---------- *)
+(* idx = luaIndex2StringIndex.  Since /repo e961103 the Go code resolves a negative i before the
+   start-1 step (so that -2^63 cannot overflow); over Z the two orders give the same function, the
+   order below is the original one. *)
 Definition idx (l i : Z) (start : bool) : Z :=
   let i1 := if start && negb (i =? 0) then i - 1 else i in
   let i2 := if i1 <? 0 then l + i1 + 1 else i1 in
